@@ -20,7 +20,7 @@ import sys
 
 import numpy as np
 
-from .. import core
+from .. import argguard, core
 
 L1_INVS = ["TypeOK", "C16_ClauseSetDiscriminates", "C16_SpecVariantSatisfiesEveryClause", "C16_ZeroDoseAndComposition"]
 SAT = 23000           # must equal DoseClauses!Sat
@@ -45,6 +45,15 @@ def dose_arg(ctx, doses, how, tag):
         return np.array(doses, dtype=float)
     if how == "list":
         return [float(d) for d in doses]
+    if how == "csv":                     # table with a CorrectedDose column (and removed tilts that must be skipped)
+        path = os.path.join(ctx.workdir, "dose_%s.csv" % tag)
+        with open(path, "w") as fh:
+            fh.write(",CorrectedDose,Removed\n")
+            for i, d in enumerate(doses):
+                fh.write("%d,%.2f,False\n" % (2 * i, d))
+                if i == 0:
+                    fh.write("%d,%.2f,True\n" % (2 * i + 1, 77.0))
+        return path
     path = os.path.join(ctx.workdir, "dose_%s.txt" % tag)
     with open(path, "w") as fh:
         for d in doses:
@@ -52,7 +61,19 @@ def dose_arg(ctx, doses, how, tag):
     return path
 
 
-FORMS = ["xyz_c", "xyz_f", "xyz_view", "zyx_c"]
+def px_arg(px, spelling):
+    if spelling == "np64":
+        return np.float64(px)
+    if spelling == "np32" and float(np.float32(px)) == float(px):
+        return np.float32(px)
+    if spelling == "str":
+        return repr(float(px))
+    if spelling == "int" and float(px) == int(px):
+        return int(px)
+    return float(px)
+
+
+FORMS = ["xyz_c", "xyz_f", "xyz_view", "zyx_c", "xyz_ro", "xyz_strided", "xyz_c_outzyx", "zyx_c_outxyz"]
 
 
 def to_form(canon, form):
@@ -68,22 +89,42 @@ def to_form(canon, form):
         return np.ascontiguousarray(np.transpose(canon, (2, 1, 0))).transpose(2, 1, 0), {}
     if form == "zyx_c":
         return np.ascontiguousarray(np.transpose(canon, (2, 1, 0))), {"input_order": "zyx", "output_order": "zyx"}
+    if form == "zyx_c_outxyz":
+        return np.ascontiguousarray(np.transpose(canon, (2, 1, 0))), {"input_order": "zyx", "output_order": "xyz"}
+    if form == "xyz_c_outzyx":
+        return np.ascontiguousarray(canon), {"input_order": "xyz", "output_order": "zyx"}
+    if form == "xyz_ro":                 # read-only array
+        a = np.array(canon, order="C", copy=True)
+        a.setflags(write=False)
+        return a, {}
+    if form == "xyz_strided":            # every other image of a larger stack: a non-contiguous view
+        big = np.full(canon.shape[:2] + (2 * canon.shape[2],), 3.25, dtype=canon.dtype)
+        big[:, :, ::2] = canon
+        return big[:, :, ::2], {}
     return np.ascontiguousarray(canon), {}
 
 
 def from_form(out, form):
-    return out.transpose(2, 1, 0) if (form == "zyx_c" and isinstance(out, np.ndarray) and out.ndim == 3) else out
+    zyx_out = form in ("zyx_c", "xyz_c_outzyx")
+    return out.transpose(2, 1, 0) if (zyx_out and isinstance(out, np.ndarray) and out.ndim == 3) else out
 
 
-def apply_filter(ctx, stack, px, doses, how, tag="a", form="xyz_c", obs=None):
+def apply_filter(ctx, stack, px, doses, how, tag="a", form="xyz_c", obs=None, pxas="float"):
     """dose_filter on `stack` (canonical [x, y, image] content) handed over in the storage form `form`; the result is
     returned in canonical axes.  obs['argmut'] is set when the array that was handed over differs afterwards."""
     from cryocat import tiltstack
     arg, kw = to_form(stack, form)
-    before = arg.copy()
-    out = quiet(tiltstack.dose_filter, arg, px, dose_arg(ctx, doses, how, tag), **kw)
-    if obs is not None and not np.array_equal(arg, before):
-        obs["argmut"] = True
+    dose_in = dose_arg(ctx, doses, how, tag)
+    guard = argguard.Guard(stack=arg, doses=dose_in)
+    filetext = open(dose_in).read() if isinstance(dose_in, str) else None
+    out = quiet(tiltstack.dose_filter, arg, px_arg(px, pxas), dose_in, **kw)
+    if obs is not None:
+        why = guard.changed()
+        if why is None and filetext is not None and open(dose_in).read() != filetext:
+            why = "dose file rewritten"
+        if why:
+            obs["argmut"] = True
+            obs["why"] = why
     return from_form(out, form)
 
 
@@ -109,6 +150,11 @@ def gains_of(out, W, H, n):
     return np.stack([np.fft.fft2(out[:, :, i]) for i in range(n)])
 
 
+def tiltstack_mod():
+    from cryocat import tiltstack
+    return tiltstack
+
+
 def measure(ctx, case):
     """Runs dose_filter on the probes of one case and projects the observations (no verdict here)."""
     import random
@@ -122,7 +168,12 @@ def measure(ctx, case):
     _apply = globals()["apply_filter"]
 
     def apply_filter(ctx_, stack, px_, doses, how_, tag="a"):          # every call of this case uses the case's form
-        return _apply(ctx_, stack, px_, doses, how_, tag, form=form, obs=obs)
+        return _apply(ctx_, stack, px_, doses, how_, tag, form=form, obs=obs, pxas=pxas)
+    pxas = case.get("pxas", "float")
+    # call history: other public functions of the module with non-default options run first
+    other = nprng.normal(size=(max(W, 5), max(H, 5), n + 1))
+    quiet(tiltstack_mod().crop, other, new_width=max(W, 5) - 1, new_height=max(H, 5) - 2, output_order="zyx")
+    quiet(tiltstack_mod().flip_along_axes, np.ascontiguousarray(other.transpose(2, 1, 0)), ["x", "z"], input_order="zyx")
     imp = np.zeros((W, H, n))
     imp[0, 0, :] = 1.0
     # a call with the same stack shape but another pixel size and other doses comes first: nothing of it may leak
@@ -152,20 +203,22 @@ def measure(ctx, case):
     Rf, kw = to_form(R, form)
     Rf0 = Rf.copy()
     R2f, _ = to_form(R2, form)
-    first = quiet(tiltstack.dose_filter, Rf, px, dose_in, **kw)
+    pxv = px_arg(px, pxas)
+    guard = argguard.Guard(stack=Rf, other_stack=R2f, doses=dose_in)
+    first = quiet(tiltstack.dose_filter, Rf, pxv, dose_in, **kw)
     o_r = np.array(from_form(first, form), dtype=float)      # snapshot of the first result (canonical axes)
     # independence of calls: a later call leaves the earlier result alone; after the caller overwrites the returned
     # stacks the same call on the same array gives the same stack again; the arguments (stack, doses) are not modified
-    second = quiet(tiltstack.dose_filter, Rf, px, dose_in, **kw)
-    quiet(tiltstack.dose_filter, R2f, px, dose_in, **kw)     # and a later call with another stack of the same shape
+    second = quiet(tiltstack.dose_filter, Rf, pxv, dose_in, **kw)
+    quiet(tiltstack.dose_filter, R2f, pxv, dose_in, **kw)     # and a later call with another stack of the same shape
     keep = float(np.max(np.abs(np.asarray(from_form(first, form), dtype=float) - o_r))) if np.shape(first) == np.shape(second) else 2.0
     for arr in (first, second):
         if isinstance(arr, np.ndarray) and arr.flags.writeable and not np.shares_memory(arr, Rf):
             arr[...] = 7.0
-    third = np.asarray(from_form(quiet(tiltstack.dose_filter, Rf, px, dose_in, **kw), form), dtype=float)
+    third = np.asarray(from_form(quiet(tiltstack.dose_filter, Rf, pxv, dose_in, **kw), form), dtype=float)
     rep = float(np.max(np.abs(third - o_r))) if third.shape == o_r.shape else 2.0
     dose_after = open(dose_in).read() if isinstance(dose_in, str) else np.array(dose_in, dtype=float)
-    argmut = not np.array_equal(Rf, Rf0) or not np.array_equal(R, R0) or not (
+    argmut = guard.changed() is not None or not np.array_equal(Rf, Rf0) or not np.array_equal(R, R0) or not (
         dose_after == dose_before if isinstance(dose_in, str) else np.array_equal(dose_after, dose_before))
     FR = np.stack([np.fft.fft2(R[:, :, i]) for i in range(n)])
     Gr = gains_of(o_r, W, H, n) / FR
@@ -215,6 +268,44 @@ def measure(ctx, case):
         t["A2"] = exponents(gains_of(o2, W, H, n))[:, ix, iy].tolist()
         t["A12"] = exponents(gains_of(o12, W, H, n))[:, ix, iy].tolist()
         t["Asum"] = exponents(gains_of(osum, W, H, n))[:, ix, iy].tolist()
+    # the same stack and doses in other input forms: single precision array, stack files of every accepted extension,
+    # output file written and read back - relative difference to the float64 result (x1e9)
+    xres = []
+    if case.get("xcheck"):
+        from cryocat import cryomap
+        import mrcfile
+        ref = o_r
+        amp = float(np.max(np.abs(ref))) or 1.0
+
+        def relres(o, want_shape=True):
+            o = np.asarray(o, dtype=float)
+            return clampi(float(np.max(np.abs(o - ref))) / amp * 1e9) if o.shape == ref.shape else CLAMP
+        r32 = R.astype(np.float32)
+        o32 = quiet(tiltstack.dose_filter, r32, pxv, dose_in)
+        xres.append({"name": "float32", "res": relres(o32)})
+        zyx32 = np.ascontiguousarray(r32.transpose(2, 1, 0))
+        for ext in case["xcheck"]:
+            path = os.path.join(ctx.workdir, "stack_%d.%s" % (os.getpid(), ext))
+            if ext in ("mrc", "rec", "em"):
+                cryomap.write(zyx32, path, transpose=False)
+            else:
+                mrcfile.write(path, zyx32, overwrite=True)
+            before = open(path, "rb").read()
+            of = quiet(tiltstack.dose_filter, path, pxv, dose_in)
+            same = open(path, "rb").read() == before
+            xres.append({"name": "file_" + ext, "res": relres(of) if same else CLAMP})
+            os.remove(path)
+        outp = os.path.join(ctx.workdir, "filtered_%d.mrc" % os.getpid())
+        oo = quiet(tiltstack.dose_filter, Rf, pxv, dose_in, output_file=outp, **kw)
+        back = cryomap.read(outp, transpose=False).transpose(2, 1, 0) if os.path.exists(outp) else np.zeros((1,))
+        xres.append({"name": "output_file_returned", "res": relres(from_form(oo, form))})
+        xres.append({"name": "output_file_written", "res": relres(back)})
+        if os.path.exists(outp):
+            os.remove(outp)
+        if guard.changed() is not None:
+            obs["argmut"] = True
+    t.update({"form": form, "pxas": pxas, "dosesas": {"array": "array", "list": "list", "file": "file", "csv": "csv"}[how],
+              "xres": xres})
     t["argmut"] = bool(t["argmut"] or obs["argmut"])
     return t
 
@@ -321,8 +412,10 @@ def rand_case(rng, wh_lo=4, wh_hi=64, nmax=10, area_cap=None, force_grid=None, c
     n = rng.randint(nmin, nmax)
     grid = force_grid if force_grid is not None else rng.random() < 0.6
     case = {"W": W, "H": H, "n": n, "mseed": rng.randrange(2 ** 31),
-            "doses_as": doses_as or rng.choice(["array", "array", "list", "file"]),
-            "form": form or rng.choice(["xyz_c", "xyz_c"] + FORMS)}
+            "doses_as": doses_as or rng.choice(["array", "array", "list", "file", "csv"]),
+            "form": form or rng.choice(["xyz_c", "xyz_c"] + FORMS), "pxas": rng.choice(["float", "float", "np64", "np32", "str", "int"])}
+    if rng.random() < 0.25:
+        case["xcheck"] = rng.sample(["mrc", "st", "em", "rec", "ali"], 2)
     if grid:
         axis = rng.choice(["x", "y"])
         edge = W if axis == "x" else H
@@ -394,7 +487,7 @@ def run(ctx):
     if want("trace"):
         cases = []
         if ctx.quick:
-            for _ in range(45):
+            for _ in range(36):
                 cases.append(rand_case(rng, area_cap=1200, nmax=8))
             cases.append(rand_case(rng, wh_lo=40, wh_hi=64, nmax=3, force_grid=True, comp=False))
             cases.append(rand_case(rng, wh_lo=4, wh_hi=9, nmax=10, force_grid=True, comp=True))
@@ -406,11 +499,16 @@ def run(ctx):
                 cases.append(rand_case(rng, area_cap=500, nmin=2, nmax=7, force_grid=True, comp=(i == 8), dose_mode=mode,
                                        doses_as=["array", "list", "file"][i % 3]))
             # stack sizes over the whole range with strictly distinct doses (9, 10 and beyond), every storage form
-            for i, nimg in enumerate([1, 2, 3, 5, 8, 9, 10, 10, 12]):
-                cases.append(rand_case(rng, wh_lo=4, wh_hi=14, nmin=nimg, nmax=nimg, force_grid=(i % 2 == 0), comp=(i % 3 == 0),
-                                       dose_mode="distinct", form=FORMS[i % 4]))
+            # every stack size 1..12 with strictly distinct doses, every storage form, every dose form
+            for i, nimg in enumerate(range(1, 13)):
+                cases.append(rand_case(rng, wh_lo=4, wh_hi=10, nmin=nimg, nmax=nimg, force_grid=(i % 2 == 0), comp=(i % 4 == 0),
+                                       dose_mode="distinct", form=FORMS[i % len(FORMS)],
+                                       doses_as=["array", "list", "file", "csv"][i % 4]))
             for i, frm in enumerate(FORMS):
-                cases.append(rand_case(rng, area_cap=400, nmin=2, nmax=6, comp=True, form=frm))
+                c = rand_case(rng, area_cap=300, nmin=2, nmax=5, comp=(i % 2 == 0), form=frm, force_grid=True)
+                c["xcheck"] = [["mrc", "st", "em", "rec", "ali"][i % 5], ["mrc", "st", "em", "rec", "ali"][(i + 2) % 5]]
+                c["pxas"] = ["float", "np64", "np32", "str", "int"][i % 5]
+                cases.append(c)
             for c in cases:
                 c["pw_max"] = 16
         else:
@@ -421,7 +519,7 @@ def run(ctx):
             cases.append(rand_case(rng, wh_lo=64, wh_hi=64, nmax=10, force_grid=True, comp=True))
             for i in range(60):
                 nimg = [1, 2, 4, 7, 8, 9, 10, 11, 12, 16][i % 10]
-                cases.append(rand_case(rng, area_cap=600, nmin=nimg, nmax=nimg, dose_mode="distinct", form=FORMS[i % 4],
+                cases.append(rand_case(rng, area_cap=600, nmin=nimg, nmax=nimg, dose_mode="distinct", form=FORMS[i % len(FORMS)],
                                        comp=(i % 3 == 0)))
             for i in range(90):
                 mode = ["constant", "multiples", "zero_middle", "ramp_down", "few_values", "ramp_up"][i % 6]
